@@ -162,10 +162,12 @@ def scenario(draw, ensembles=ENSEMBLES, calc_styles=("caching",), constraints=Tr
         cons = ("FixAtoms",) if ens == "GrandCanonical" else ("FixAtoms", "FixCom")
         if ens == "GrandCanonical" and "fixatoms-deletion" in exclude:
             cons = ()
+    calc_style = draw(st.sampled_from(list(calc_styles)))
     adesc = draw(S.atoms_desc(min_atoms=min_atoms, max_atoms=max_atoms, extra_arrays=extra_arrays, constraints=cons,
+                              species=["Cu", "H", "O"] if calc_style == "emt" else None,
                               pbc_choices=((True, True, True),) if ens in ("Isobaric", "Isotension", "GrandCanonical") else ((True, True, True), (False, False, False))))
     n = len(adesc["symbols"])
-    scn = {"ensemble": ens, "atoms": adesc, "seed": draw(st.integers(1, 2 ** 31)), "calc": draw(st.sampled_from(list(calc_styles))),
+    scn = {"ensemble": ens, "atoms": adesc, "seed": draw(st.integers(1, 2 ** 31)), "calc": calc_style,
            "logger": bool(logger and draw(st.booleans())), "excluded_known": 0}
     kinds = allowed_leaf_kinds(ens)
     entries = []
@@ -182,7 +184,7 @@ def scenario(draw, ensembles=ENSEMBLES, calc_styles=("caching",), constraints=Tr
     scn["entries"] = entries
     if ens == "GrandCanonical":
         if draw(st.booleans()):
-            scn["species"] = {"symbols": ["Ar"], "positions": [[0.0, 0.0, 0.0]]}
+            scn["species"] = {"symbols": ["Cu" if calc_style == "emt" else "Ar"], "positions": [[0.0, 0.0, 0.0]]}
         else:
             k = draw(st.integers(2, 3))
             scn["species"] = {"symbols": ["O"] + ["H"] * (k - 1), "positions": [[0.0, 0.0, 0.0]] + [[draw(fl(-1, 1)), draw(fl(-1, 1)), draw(fl(0.5, 1.0))] for _ in range(k - 1)]}
